@@ -269,7 +269,7 @@ class CFormatter(Formatter):
     ) -> str:
         message_name = self.format_message_name(d.message)
         prefix = self.bp_processor_name_prefix()
-        return f"{prefix}Array{message_name}{d.number}"
+        return f"{prefix}Array{message_name}_{d.number}"
 
     def format_bp_array_processor_name_from_alias(self, t: Array, d: Alias) -> str:
         alias_name = self.format_alias_name(d)
@@ -304,7 +304,7 @@ class CFormatter(Formatter):
     ) -> str:
         message_name = self.format_message_name(d.message)
         prefix = self.bp_json_formatter_name_prefix()
-        return f"{prefix}Array{message_name}{d.number}"
+        return f"{prefix}Array{message_name}_{d.number}"
 
     def format_bp_array_json_formatter_name_from_alias(self, t: Array, d: Alias) -> str:
         alias_name = self.format_alias_name(d)
